@@ -72,6 +72,7 @@ def configs():
         'dir': {'/static': pub},
         'dir-slashes': {'/static/': pub + '/'},
         'dir-dict-ct': {'/static': {'filename': pub, 'content_type': 'x-test/y'}},
+        'dir-dict-noct': {'/static': {'filename': pub}},
         'files': {'/': single, '/index.html': {'filename': single, 'content_type': 'text/plain'},
                   '/static': pub},
         'override': {'/static': pub, '': 'custom.html'},
@@ -187,10 +188,17 @@ async def stub_asgi_app(scope, receive, send):
     await send({'type': 'http.response.body', 'body': b'WRAPPED'})
 
 
-def run_wsgi(cfgname, ep, wrapped, path):
+def make_app(which, cfgname, ep, wrapped):
     import engineio
-    app = engineio.WSGIApp(StubWsgiEngine(), wsgi_app=stub_wsgi_app if wrapped else None,
-                           static_files=configs()[cfgname], engineio_path=ep)
+    if which == 'wsgi':
+        return engineio.WSGIApp(StubWsgiEngine(), wsgi_app=stub_wsgi_app if wrapped else None,
+                                static_files=configs()[cfgname], engineio_path=ep)
+    return engineio.ASGIApp(StubAsgiEngine(), other_asgi_app=stub_asgi_app if wrapped else None,
+                            static_files=configs()[cfgname], engineio_path=ep)
+
+
+def run_wsgi(cfgname, ep, wrapped, path, app=None):
+    app = app or make_app('wsgi', cfgname, ep, wrapped)
     out = {}
 
     def sr(status, headers, exc_info=None):
@@ -217,10 +225,8 @@ def loop():
     return _loop
 
 
-def run_asgi(cfgname, ep, wrapped, path):
-    import engineio
-    app = engineio.ASGIApp(StubAsgiEngine(), other_asgi_app=stub_asgi_app if wrapped else None,
-                           static_files=configs()[cfgname], engineio_path=ep)
+def run_asgi(cfgname, ep, wrapped, path, app=None):
+    app = app or make_app('asgi', cfgname, ep, wrapped)
     out = {'body': b''}
     sent = [{'type': 'http.request', 'body': b'', 'more_body': False}]
 
@@ -243,13 +249,23 @@ def run_asgi(cfgname, ep, wrapped, path):
     return out
 
 
-def check_path(which, cfgname, ep, wrapped, path, ctx=None):
+def check_sequence(which, cfgname, ep, wrapped, paths, ctx=None):
+    """Several requests to ONE application object: each is judged like a request to a fresh
+    one (the answer to a request does not depend on the requests before it)."""
+    app = make_app(which, cfgname, ep, wrapped)
+    for k, path in enumerate(paths):
+        check_path(which, cfgname, ep, wrapped, path, ctx, app=app, earlier=paths[:k])
+
+
+def check_path(which, cfgname, ep, wrapped, path, ctx=None, app=None, earlier=None):
     t = tree()
     path = path.replace('{ROOT}', t['root'])
     rep = {'app': which, 'static': cfgname, 'endpoint': ep, 'wrapped': wrapped,
            'path': path.replace(t['root'], '{ROOT}')}
+    if earlier is not None:
+        rep['earlier'] = [p.replace(t['root'], '{ROOT}') for p in earlier]
     mapping = configs()[cfgname]
-    res = (run_wsgi if which == 'wsgi' else run_asgi)(cfgname, ep, wrapped, path)
+    res = (run_wsgi if which == 'wsgi' else run_asgi)(cfgname, ep, wrapped, path, app=app)
     epn = norm_endpoint(ep)
     under = path.startswith(epn)
     bare = path + '/' == epn
@@ -458,6 +474,16 @@ def run_shard(ctx):
               lambda c: check_path(c[0], c[1], c[2], c[3],
                                    '/' + '/'.join(c[4]) + ('/' if c[5] and c[4] else ''), ctx),
               max_examples=1200 if quick else 30000)
+    # sequences of requests to one application object (bare mapping keys first, then files)
+    keys = ['/static', '/static/', '/index.html', '/', '/static/sub', '/assets', '/favicon.ico',
+            '/static/index.html', '/static/a.txt', '/static/sub/inside.txt', '/single.html']
+    seq_st = st.tuples(st.sampled_from(['wsgi', 'asgi']), st.sampled_from(sorted(configs())),
+                       st.sampled_from(ENDPOINTS), st.booleans(),
+                       st.lists(st.one_of(st.sampled_from(keys),
+                                          st.lists(seg, max_size=4).map(lambda x: '/' + '/'.join(x))),
+                                min_size=2, max_size=5))
+    run_given(ctx, seq_st, lambda c: check_sequence(c[0], c[1], c[2], c[3], c[4], ctx),
+              max_examples=300 if quick else 6000)
     if ctx.shard == 0:
         for a in CB:
             for b in CB:
@@ -476,5 +502,8 @@ def replay(case, ctx):
     if 'lifespan' in case:
         c = case['lifespan']
         check_lifespan((c['on_startup'], c['on_shutdown'], c['wrapped'], c['events']))
+    elif case.get('earlier') is not None:
+        check_sequence(case['app'], case['static'], case['endpoint'], case['wrapped'],
+                       list(case['earlier']) + [case['path']])
     else:
         check_path(case['app'], case['static'], case['endpoint'], case['wrapped'], case['path'])
